@@ -1,6 +1,7 @@
 import OntVerif.Proofs.Recover
 import OntVerif.Proofs.RecoverCycles
 import OntVerif.Gen.Recover
+import OntVerif.Gen.BatchAtomic
 /-!
 # C01 — the ledger recovers from a crash at any point of a block commit to a state identical to an uncrashed run
 
@@ -135,6 +136,24 @@ theorem C01_uncrashed_consistent [DecidableEq H] (S : Sem β σ ε H) (s0 : σ) 
 /-- `saveBlockToStateStore` (the eager, synced hash-file append) precedes every `CommitTo` in `submitBlock`: the crash
 states of the model (`k` commits durable ⇒ the append was issued before) are the reachable ones -/
 theorem C01_file_append_first : OntVerif.Gen.Recover.fileAppendFirst = true := by decide
+
+/-- **A store's batch reaches the database in one place only** (the model's "a batch commit is all-or-nothing" tied to the
+source of `core/store/leveldbstore/leveldb_store.go`, regenerated on every run): the only calls that modify the database
+are `db.Write` in `BatchCommit` and the un-batched `Put`/`Delete`; `BatchPut`/`BatchDelete` consist of a single statement,
+the append to `self.batch`, and nothing else touches the batch; the state store's `BatchPutRawKeyVal`/`BatchDeleteRawKey`/
+`CommitTo`/`NewBatch` only forward. An early or partial flush of a pending batch (e.g. "write the batch out when it grows
+beyond N operations") breaks this theorem. Atomicity and durability of the single `db.Write(batch)` itself is goleveldb's
+contract (modelled). -/
+theorem C01_batch_atomic :
+    OntVerif.Gen.BatchAtomic.dbWriteSites = [("BatchCommit", "Write"), ("Delete", "Delete"), ("Put", "Put")] ∧
+    OntVerif.Gen.BatchAtomic.batchSites = [("BatchDelete", "Delete"), ("BatchPut", "Put")] ∧
+    OntVerif.Gen.BatchAtomic.body_BatchPut.length = 1 ∧ OntVerif.Gen.BatchAtomic.body_BatchDelete.length = 1 ∧
+    OntVerif.Gen.BatchAtomic.body_NewBatch.length = 1 ∧
+    OntVerif.Gen.BatchAtomic.state_BatchPutRawKeyVal = ["self.store.BatchPut(key, val)"] ∧
+    OntVerif.Gen.BatchAtomic.state_BatchDeleteRawKey = ["self.store.BatchDelete(key)"] ∧
+    OntVerif.Gen.BatchAtomic.state_CommitTo = ["return self.store.BatchCommit()"] ∧
+    OntVerif.Gen.BatchAtomic.state_NewBatch = ["self.store.NewBatch()"] := by
+  decide
 
 /-- **C01 for the replay loop, commit order and recovery commits extracted from the source on this run.** -/
 theorem C01_recover :
